@@ -382,7 +382,7 @@ def cell_key(world, placement, i):
 
 
 def xlsx_books(world, placement, sheet_orders=None, styled=True,
-               skip_sheets=(), skip_names=()):
+               skip_sheets=(), skip_names=(), extlinks=False):
     """{file name: xlsx bytes}, written by openpyxl in memory.
 
     skip_sheets: [(b, s)] sheets left out of their book (fault worlds);
@@ -404,13 +404,33 @@ def xlsx_books(world, placement, sheet_orders=None, styled=True,
             wss[s] = wb.create_sheet(P.sheet(b, s)['name'])
         if not wss:
             wb.create_sheet('Other')
+        links = None
+        if extlinks:
+            # real externalLink parts: every other book gets a numeric id
+            from openpyxl.workbook.external_link.external import (
+                ExternalLink, ExternalBook, ExternalSheetNames)
+            from openpyxl.packaging.relationship import Relationship
+            others = [x for x in range(len(world['books'])) if x != b]
+            if placement['style'] % 2:
+                others.reverse()
+            links = {}
+            for x in others:
+                links[x] = len(links) + 1
+                link = ExternalLink(externalBook=ExternalBook(
+                    sheetNames=ExternalSheetNames(sheetName=[
+                        P.sheet(x, q)['name']
+                        for q in range(len(world['books'][x]))]), id='rId1'))
+                link.file_link = Relationship(
+                    type='externalLinkPath', Target=P.file(x),
+                    TargetMode='External', Id='rId1')
+                wb._external_links.append(link)
         for i, c in enumerate(world['cells']):
             if c['at'][0] != b or (b, c['at'][1]) in skip_sheets:
                 continue
             _, s, r, col = c['at']
             st = Rng(placement['style'], 'cell%s' % (c['at'],)) if styled and \
                 placement['style'] else None
-            R = Renderer(world, P, 'file', st)
+            R = Renderer(world, P, 'file', st, links)
             ws = wss[s]
             a1 = P.a1(b, s, r, col)
             if 'f' in c:
